@@ -200,6 +200,12 @@ func runC13(c *core.Ctx) {
 		c.Check(len(bad) == 0, "no-store-after-dedup", f.Name()+" calls no attribute-block writer after Dedup", f.Decl.Pos(), "a function that writes attributes of the BGPPathA block is called after Dedup()")
 	}
 
+	processCopiesFirst(c, "process-copies-first")
+}
+
+// processCopiesFirst: Chain.Process starts with `copy := input.Copy()` and that is the only use of its input (shared by C13 and C05).
+func processCopiesFirst(c *core.Ctx, rule string) {
+	const fpkg = "routingtable/filter"
 	// (4) Chain.Process copies
 	if f := c.MustFunc(fpkg + ".(Chain).Process"); f != nil {
 		pa := core.ParamObj(f, 1)
@@ -218,7 +224,7 @@ func runC13(c *core.Ctx) {
 			}
 			return true
 		})
-		c.Check(okFirst && usesPa == 1, "process-copies-first", f.Name(), f.Decl.Pos(), "Chain.Process does not begin with `copy := input.Copy()` as the only use of its input: actions that rewrite in place (AS path prepend) or callers that keep rewriting the result would write into the caller's stored path")
+		c.Check(okFirst && usesPa == 1, rule, f.Name(), f.Decl.Pos(), "Chain.Process does not begin with `copy := input.Copy()` as the only use of its input: actions that rewrite in place (AS path prepend) or callers that keep rewriting the result would write into the caller's stored path")
 	}
 }
 
